@@ -18,6 +18,38 @@ import (
 
 func sdHex(b [3]byte) string { return hex.EncodeToString(b[:]) }
 
+// mixCase renders hex text with the letter digits in lower, upper or mixed case
+// (variant 0 lower, 1 upper, otherwise per-letter by the bits of variant); the
+// octets a hex string denotes do not depend on its case.
+func mixCase(s string, variant uint64) string {
+	b := []byte(s)
+	for i := range b {
+		if b[i] >= 'a' && b[i] <= 'f' && (variant == 1 || (variant > 1 && variant>>uint(i%60)&1 == 1)) {
+			b[i] -= 'a' - 'A'
+		}
+	}
+	return string(b)
+}
+
+// dnnOctets draws a DNN value: text-like (letters, digits, '-', '.') or arbitrary
+// octets 0..255 — the DNN value is an octet string for the encoders.
+func dnnOctets(r *prng.Rand, n int) []byte {
+	d := make([]byte, n)
+	switch r.Intn(3) {
+	case 0:
+		r.Fill(d)
+	case 1:
+		for j := range d {
+			d[j] = []byte{0x80, 0xff, 0xc3, 0xa9, 0x00, 0x7f, 0xfe, 0xe2}[r.Intn(8)]
+		}
+	default:
+		for j := range d {
+			d[j] = "abcdefghijklmnopqrstuvwxyz0123456789-."[r.Intn(38)]
+		}
+	}
+	return d
+}
+
 // oracle "snssai": I=[sst, hasSD, sd(24 bit), cause]
 func c13Snssai(c *core.Ctx, k *core.Case) {
 	sst, hasSD, sd, cause := uint8(k.I[0]), k.I[1] == 1, uint32(k.I[2]), uint8(k.I[3])
@@ -25,7 +57,7 @@ func c13Snssai(c *core.Ctx, k *core.Case) {
 	want := refconv.Snssai{SST: sst, HasSD: hasSD}
 	if hasSD {
 		want.SD = [3]byte{byte(sd >> 16), byte(sd >> 8), byte(sd)}
-		m.Sd = sdHex(want.SD)
+		m.Sd = mixCase(sdHex(want.SD), uint64(sd>>3)%5)
 	}
 	c.Eval(1)
 	enc := nasConvert.SnssaiToNas(m)
@@ -174,7 +206,10 @@ func c13RandTais(r *prng.Rand, n, nPlmn int) ([]models.Tai, []refconv.Tai) {
 		}
 		var tac [3]byte
 		copy(tac[:], r.Bytes(3))
-		ms = append(ms, models.Tai{PlmnId: &models.PlmnId{Mcc: p.mcc, Mnc: p.mnc}, Tac: hex.EncodeToString(tac[:])})
+		if r.Chance(1, 8) {
+			tac = [][3]byte{{0xff, 0xff, 0xfe}, {0, 0, 0}, {0xff, 0xff, 0xff}, {0xab, 0xcd, 0xef}}[r.Intn(4)]
+		}
+		ms = append(ms, models.Tai{PlmnId: &models.PlmnId{Mcc: p.mcc, Mnc: p.mnc}, Tac: mixCase(hex.EncodeToString(tac[:]), r.Uint64()%4)})
 		ws = append(ws, refconv.Tai{MCC: p.mcc, MNC: p.mnc, TAC: tac})
 	}
 	return ms, ws
@@ -218,7 +253,10 @@ func c13ServiceArea(c *core.Ctx, k *core.Case) {
 		for j := 0; j < n && total < 16; j++ {
 			var t [3]byte
 			copy(t[:], r.Bytes(3))
-			ar.Tacs = append(ar.Tacs, hex.EncodeToString(t[:]))
+			if r.Chance(1, 8) {
+				t = [][3]byte{{0xff, 0xff, 0xfe}, {0, 0, 0}, {0xff, 0xff, 0xff}, {0xab, 0xcd, 0xef}}[r.Intn(4)]
+			}
+			ar.Tacs = append(ar.Tacs, mixCase(hex.EncodeToString(t[:]), r.Uint64()%4))
 			want = append(want, t)
 			total++
 		}
@@ -251,10 +289,7 @@ func c13ServiceArea(c *core.Ctx, k *core.Case) {
 func c13Ladn(c *core.Ctx, k *core.Case) {
 	r := prng.New(uint64(k.I[0]))
 	ms, want := c13RandTais(r, int(k.I[1]), int(k.I[2]))
-	dnn := make([]byte, k.I[3])
-	for i := range dnn {
-		dnn[i] = "abcdefghijklmnopqrstuvwxyz0123456789-."[r.Intn(38)]
-	}
+	dnn := dnnOctets(r, int(k.I[3]))
 	c.Eval(1)
 	enc := nasConvert.LadnToNas(string(dnn), ms)
 	c.Hold(k, "nasConvert.LadnToNas", enc)
@@ -269,14 +304,11 @@ func c13LadnIndication(c *core.Ctx, k *core.Case) {
 	r := prng.New(uint64(k.I[0]))
 	var dnns [][]byte
 	for i := 0; i < int(k.I[1]); i++ {
-		d := make([]byte, r.Range(1, 100))
+		n := r.Range(1, 100)
 		if i%3 == 0 {
-			d = make([]byte, r.Range(1, 8))
+			n = r.Range(1, 8)
 		}
-		for j := range d {
-			d[j] = "abcdefghijklmnopqrstuvwxyz0123456789-."[r.Intn(38)]
-		}
-		dnns = append(dnns, d)
+		dnns = append(dnns, dnnOctets(r, n))
 	}
 	wire := refconv.LadnIndication(dnns)
 	c.Eval(1)
@@ -305,7 +337,7 @@ func init() {
 		Assumptions: []string{
 			"spec decoders written from TS 24.501 9.11.2.8, 9.11.3.9, 9.11.3.29, 9.11.3.30, 9.11.3.46, 9.11.3.49 (number of elements is coded n−1)",
 			"the DNN inside LADN elements is opaque octets in both directions (LadnToNas writes it as given)",
-			"TAC and SD text is valid hex of the right size (the property's domain)",
+			"TAC and SD text is valid hex of the right size, in lower, upper or mixed case (the octets a hex string denotes do not depend on its case)",
 		},
 		Oracles: map[string]func(*core.Ctx, *core.Case){"snssai": c13Snssai, "nssai-decode": c13NssaiDecode, "snssai-element": c13SnssaiElement, "rejected-nssai": c13RejectedNssai, "tailist": c13TaiList, "servicearea": c13ServiceArea, "ladn": c13Ladn, "ladn-indication": c13LadnIndication},
 		Floors: func(tier string, cov map[string]map[string]int64, cnt map[string]int64) []string {
